@@ -1,9 +1,9 @@
 package njcheck
 
 import (
-	"os"
 	"encoding/json"
 	"fmt"
+	"os"
 	"regexp"
 	"sort"
 	"strconv"
